@@ -39,7 +39,8 @@ def run(tier, seed):
     n_dis = r_dis + s_dis + a_dis
     v_per, v_bounded = p_c10.vector_index_check(rep, d, tier, only) if (not only or 'vidx' in only or 'radiation' in only or 'cp_normal' in only) else ([], [])
     trusted = regcheck.TRUSTED_REG + p_c11.TRUSTED + ['only the obligations (a)-(d) of DESIGN 4/C19 are claimed; sanitizer-level behaviour of the compiled C++ is out of reach of contracts on extracted C']
-    cov = {'obligations': n_dis + len(rep.violations) + len(rep.undecided) + len(rep.known_hits), 'discharged': n_dis,
+    cov = {'obligations': n_dis + len(rep.violations) + len(rep.undecided), 'discharged': n_dis,   # obligations that fail as recorded known findings are counted under known_finding_obligations only
+          
            'checker_cmd': rres[0][1].cmd if rres else 'n/a', 'trusted_base': trusted,
            'functions_under_contract': [j[0] for j, r in rres] + [j[0] for j, r in sres] + [j[0] for j, r in ares],
            'functions_not_under_contract': rnot + snot, 'per_function': r_per + s_per + a_per + v_per, 'bounded': v_bounded,
